@@ -214,6 +214,7 @@ loop(F_CMS, "CountMinSketch.merge", 2, modifies=[("CountMinSketch", "_counters")
 ])
 
 ghost(F_CMS, "CountMinSketch.add", "self._total_count += count", "self.g_true[item] = self.g_true.get(item, 0) + count")
+ghost(F_CMS, "CountMinSketch.__init__", "self._total_count = 0", "self.g_true = {}")
 ghost(F_CMS, "CountMinSketch.merge", "self._total_count += other._total_count",
       "self.g_true = _c20_sum_counts(self.g_true, other.g_true)")
 
@@ -352,14 +353,38 @@ from happysimulator.sketching.count_min_sketch import CountMinSketch  # noqa: E4
 PROPERTY = {
     "id": "C20",
     "level": "proof",
-    "trusted": ["heap typing of the fields declared in specs/C20.py",
-                "bit model of pyvc/bits.py (|, &, <<, >> on ints: uninterpreted bit predicate + defining facts)"],
-    "assumptions": [
-        "A-python: no monkey-patching/reflection; list, dict, range, min behave as documented",
+    "trusted": ["heap typing of the fields declared in specs/C20.py (lists used as tables are typed Vec: array + length)",
+                "bit model of pyvc/bits.py (|, &, ^, <<, >> on ints: uninterpreted bit predicate + defining facts; "
+                "bin(x).count('1') an uninterpreted non-negative int)",
+                "min(d.values(), key=f) / min(f(v) for v in d.values()) over a symbolic dict return an ARBITRARY minimal "
+                "element/value (pyvc/rt.py _map_extreme); sum(<genexpr over a list of symbolic length>) is an arbitrary number",
+                "tasks `_hash[range]`: hashlib.sha256 digests unpacked with struct '>Q' are arbitrary ints in [0, 2**64) "
+                "and builtin hash() is an arbitrary int (spec-local models _ModelHashlib/_ModelStruct/_model_hash)"],
+    "assumptions": COMMON_ASSUMPTIONS + [
+        "A-python: no monkey-patching/reflection; list, dict, range, min, max behave as documented",
         "items are modelled as ints: only equality and the sketch's hash of an item are observed",
-        "hashlib.sha256 / struct.pack / repr are deterministic: BloomFilter._hash(item, i) is a fixed function of "
-        "(seed, size_bits, item, i) with values in [0, size_bits) (the final `% self._size_bits`); the function "
-        "is replaced by this contract (stub) wherever it is called",
+        "hashlib.sha256 / struct.pack / repr / builtin hash (within one process) are deterministic: "
+        "BloomFilter._hash(item, i) is a fixed function of (seed, size_bits, item, i), CountMinSketch._hash(item, row) of "
+        "(seed, width, item, row) [its _hash_seeds are a function of seed and row], HyperLogLog._hash(item) of (seed, item); "
+        "callers use this stub (fixed function + range; the range half is proved from the real code in tasks `_hash[range]`)",
+        "_count_leading_zeros(value, max_bits) is a fixed function of its arguments (stub; its value range is not needed)",
+        "random.Random.randint(a, b) returns an int in [a, b], random() a float in [0, 1) (stubs); the seed is irrelevant",
+        "TDigest._flush empties the buffer (stub, used by TDigest.add only; _flush itself is covered by the bounded stand-in)",
+        "CountMinSketch._generate_hash_seeds returns one seed per row (stub, used by the constructor task only)",
+        "value / weight extractors of the collectors are arbitrary total functions without effect on modelled state "
+        "(spec-side classes _ValueFn/_WeightFn/_RealFn record their answer in ghost fields); Sketch.add of the "
+        "collector's sketch is the interface stub (records the call in ghost fields)",
+        "stubs TopK.add / TDigest.add used by TopKCollector / QuantileEstimator are sub-contracts of the clauses proved "
+        "for those functions in this file (true-count-recorded, total / weight-counted)",
+        "homomorphism: merge(sk(S1), sk(S2)) == sk(S1 ++ S2) follows from the proved ctor/add/merge clauses by induction on "
+        "S2 with the machine-checked base and step lemmas (*-merge-homomorphism); the induction itself is not machine-checked",
+        "TopK heavy hitters: lemma topk-heavy-hitters-are-tracked assumes `sum of tracked counts == N` (follows from the "
+        "proved per-branch clauses of TopK.add by induction; a sum over a symbolic dict is not expressible) and "
+        "`a sum of n counts each >= m is >= n*m`; cross-checked natively by bounded stand-in topk-sum-and-heavy-hitters",
+        "HyperLogLog precision is one of 4..16 (constructor check) - add/ctor are verified once per precision",
+        "MerkleTree.diff: _diff_nodes is an arbitrary function here (stub without clauses); tree construction and the "
+        "recursive diff are covered by the bounded stand-in merkle-diff only; SHA-256 collision-freeness is not used "
+        "by any proved clause",
     ],
 }
 
@@ -428,7 +453,7 @@ fn(BloomFilter, "add", args={"item": ITEM, "count": Int}, uses=BLOOM_HELPERS,
     ("total", lambda s: s.self._total_count == s.old(s.self)._total_count + s.count)],
    raises={ValueError: [("only-negative-count", lambda s: s.count < 0), ("frame", lambda s: unchanged(s, s.self))]})
 
-fn(BloomFilter, "contains", args={"item": ITEM}, uses=BLOOM_HELPERS,
+fn(BloomFilter, "contains", args={"item": ITEM}, uses=BLOOM_HELPERS, returns=Bool, modifies=[],
    ensures=[
     # the property: every inserted item is reported present
     ("no-false-negative", lambda s: implies(contains(s.self.g_items, s.item), s.result)),
@@ -437,6 +462,10 @@ fn(BloomFilter, "contains", args={"item": ITEM}, uses=BLOOM_HELPERS,
     ("false-means-some-bit-clear", lambda s: implies(Not(s.result), exists(Int, lambda j: (0 <= j)
         & (j < s.self._num_hashes) & Not(bitat(s.self, bh(s.self, s.item, j)))))),
     ("pure", lambda s: unchanged(s, s.self))])
+
+fn(BloomFilter, "__contains__", args={"item": ITEM}, uses=[(BloomFilter, "contains")],
+   ensures=[("no-false-negative", lambda s: implies(contains(s.self.g_items, s.item), s.result)),
+            ("pure", lambda s: unchanged(s, s.self))])
 
 fn(BloomFilter, "merge", args={"other": Ref(BloomFilter)},
    ensures=[
@@ -470,6 +499,7 @@ cls(CountMinSketch,
     const=["_width", "_depth", "_seed", "_hash_seeds"],
     inv=[("dimensions", lambda o: (o._width >= 1) & (o._depth >= 1)),
          ("shape", cms_shape),
+         ("one-hash-seed-per-row", lambda o: slen(o._hash_seeds) == o._depth),
          ("true-counts-nonneg", lambda o: forall(Int, lambda x: tru(o, x) >= 0)),
          ("counters-nonneg", lambda o: forall(Int, lambda r: forall(Int, lambda c: implies(
              in_row(o, r) & in_col(o, c), cell(o, r, c) >= 0)))),
@@ -494,7 +524,7 @@ fn(CountMinSketch, "add", args={"item": ITEM, "count": Int}, uses=CMS_HASH,
     ("total", lambda s: s.self._total_count == s.old(s.self)._total_count + s.count)],
    raises={ValueError: [("only-negative-count", lambda s: s.count < 0), ("frame", lambda s: unchanged(s, s.self))]})
 
-fn(CountMinSketch, "estimate", args={"item": ITEM}, uses=CMS_HASH,
+fn(CountMinSketch, "estimate", args={"item": ITEM}, uses=CMS_HASH, returns=Int, modifies=[],
    ensures=[
     # the property: a Count-Min sketch never underestimates
     ("never-underestimates", lambda s: s.result >= tru(s.self, s.item)),
@@ -502,6 +532,12 @@ fn(CountMinSketch, "estimate", args={"item": ITEM}, uses=CMS_HASH,
         in_row(s.self, r), s.result <= cell(s.self, r, ch(s.self, s.item, r))))),
     ("is-some-rows-counter", lambda s: exists(Int, lambda r: in_row(s.self, r)
         & (s.result == cell(s.self, r, ch(s.self, s.item, r))))),
+    ("pure", lambda s: unchanged(s, s.self))])
+
+fn(CountMinSketch, "estimate_with_error", args={"item": ITEM}, uses=[(CountMinSketch, "estimate")],
+   ensures=[
+    ("reports-the-item", lambda s: s.result.item == s.item),
+    ("reported-count-never-underestimates", lambda s: s.result.count >= tru(s.self, s.item)),
     ("pure", lambda s: unchanged(s, s.self))])
 
 fn(CountMinSketch, "merge", args={"other": Ref(CountMinSketch)},
@@ -834,6 +870,36 @@ KR = valueclass("KeyRange", [KeyRange], [("start", Str), ("end", Str)])
 fn(KeyRange, "contains", self_ty=KR, args={"key": Str}, inv=False, ensures=[
     ("inclusive-range", lambda s: iff(s.result, (s.self.start <= s.key) & (s.key <= s.self.end)))])
 
+M_MK = "happysimulator.sketching.merkle_tree"
+cls(MerkleNode, fields={"hash": Str, "key_range": KR, "left": OptRef(MerkleNode), "right": OptRef(MerkleNode)})
+cls(MerkleTree, fields={"_root": OptRef(MerkleNode), "_data": Map(Str, Any)})
+stub_of(M_MK, "_diff_nodes", returns=Seq(KR), modifies=[], ensures=[])          # arbitrary list: recursion is bounded-only
+
+
+def _one_range(r, node):
+    if isinstance(r, SymList) or len(r) != 1:
+        return False
+    return (r[0].start == node.key_range.start) & (r[0].end == node.key_range.end)
+
+
+def _mk_diff_post(s):
+    a, b = s.self._root, s.other._root
+    r = s.result
+    if a is None and b is None:
+        return (not isinstance(r, SymList)) and len(r) == 0        # two empty maps: empty diff
+    if a is None:
+        return _one_range(r, b)                                      # everything the other tree holds is reported
+    if b is None:
+        return _one_range(r, a)
+    if isinstance(r, SymList):                                       # descended into _diff_nodes: root hashes differ
+        return a.hash != b.hash
+    return (len(r) == 0) & (a.hash == b.hash)                        # equal root hash: empty diff
+
+
+fn(MerkleTree, "diff", args={"other": Ref(MerkleTree)}, uses=[(M_MK, "_diff_nodes")],
+   ensures=[("top-level-cases", _mk_diff_post),
+            ("pure", lambda s: unchanged(s, s.self) & (same(s.self, s.other) | unchanged(s, s.other)))])
+
 # ============================================================================ collectors: handle_event feeds the sketch once
 class _ValueFn:
     """spec-side stand-in for a user value extractor: an arbitrary function; ghost fields record its answer"""
@@ -842,8 +908,9 @@ class _ValueFn:
         raise NotImplementedError
 
 
-class _WeightFn(_ValueFn):
-    pass
+class _WeightFn:
+    def __call__(self, event):
+        raise NotImplementedError
 
 
 cls(_ValueFn, ghost={"g_none": Bool, "g_val": Int, "g_calls": Int}).alloc = False
@@ -893,7 +960,6 @@ def _count_used(s):
 
 
 fn(TopKCollector, "handle_event", args={"event": Ref(Event)},
-   requires=[lambda s: True if s.self._count_extractor is None else True],
    uses=[(_ValueFn, "__call__"), (_WeightFn, "__call__"), (TopK, "add")],
    ensures=[
     ("counts-the-event", lambda s: s.self._events_processed == s.old(s.self)._events_processed + 1),
@@ -906,8 +972,9 @@ stub_of(TDigest, "add", returns=None, modifies=["_buffer", "_centroids", "_total
         ensures=[lambda s: s.self._total_count == s.old(s.self)._total_count + s.count])
 
 
-class _RealFn(_ValueFn):
-    pass
+class _RealFn:
+    def __call__(self, event):
+        raise NotImplementedError
 
 
 cls(_RealFn, ghost={"g_none": Bool, "g_rval": Real, "g_calls": Int}).alloc = False
@@ -922,6 +989,107 @@ fn(QuantileEstimator, "handle_event", args={"event": Ref(Event)},
     ("digest-fed-exactly-once-iff-a-value-was-extracted", lambda s: s.self._tdigest._total_count
         == s.old(s.self._tdigest)._total_count + ite(s.self._value_extractor.g_none, 0, 1)),
     ("emits-nothing", lambda s: isinstance(s.result, list) and len(s.result) == 0)])
+
+# ============================================================================ constructors: the sketch of the empty stream
+stub_of(CountMinSketch, "_generate_hash_seeds", returns=V1, modifies=[], ensures=[
+    lambda s: slen(s.result) == s.self._depth])
+# the rows are built by a comprehension over range(depth): explored row count by row count, hence depth <= 5 here
+ctor(CountMinSketch, label="depth<=5", args={"width": Int, "depth": Int, "seed": Opt(Int)},
+     requires=[lambda s: s.depth <= 5], uses=[(CountMinSketch, "_generate_hash_seeds")],
+     ensures=[
+         ("dimensions-as-given", lambda s: (s.self._width == s.width) & (s.self._depth == s.depth)
+             & (s.self._seed == _opt_or(s.seed, 0))),
+         ("sketch-of-empty-stream", lambda s: forall(Int, lambda r: forall(Int, lambda c: implies(
+             in_row(s.self, r) & in_col(s.self, c), cell(s.self, r, c) == 0)))),
+         ("counts-zero", lambda s: s.self._total_count == 0)],
+     raises={ValueError: [("only-bad-dimensions", lambda s: (s.width <= 0) | (s.depth <= 0))]})
+
+for _p in PRECISIONS:
+    ctor(HyperLogLog, label=f"precision={_p}", args={"precision": (lambda _p=_p: _p), "seed": Opt(Int)},
+         ensures=[
+             ("dimensions", lambda s, _p=_p: (s.self._precision == _p) & (s.self._num_registers == (1 << _p))
+                 & (s.self._seed == _opt_or(s.seed, 0))),
+             ("sketch-of-empty-stream", lambda s: forall(Int, lambda k: implies(in_regs(s.self, k), reg(s.self, k) == 0))),
+             ("no-items", lambda s: s_is_empty(items_of(s.self))),
+             ("counts-zero", lambda s: s.self._total_count == 0)])
+ctor(HyperLogLog, label="bad-precision", args={"precision": Int, "seed": Opt(Int)},
+     requires=[lambda s: (s.precision < 4) | (s.precision > 16)],
+     ensures=[("never-constructed", lambda s: False)],
+     raises={ValueError: [("only-out-of-range-precision", lambda s: (s.precision < 4) | (s.precision > 16))]})
+
+# ============================================================================ range of the hash functions, from the real code
+# Wherever a sketch calls self._hash the stub above is used (fixed function + range).  The RANGE half of that
+# stub is proved here by running the real `_hash` with hashlib / struct / hash replaced by models that return
+# ARBITRARY digests: sha256 digest bytes unpacked with '>Q' are an arbitrary int in [0, 2**64) (trusted: struct
+# contract), builtin hash() an arbitrary int.  (That the value is a fixed function of its inputs stays assumed.)
+import happysimulator.sketching.bloom_filter as _bloom_mod  # noqa: E402
+import happysimulator.sketching.hyperloglog as _hll_mod  # noqa: E402
+
+
+class _ArbitraryDigest:
+    def __getitem__(self, sl):
+        return self
+
+
+class _ArbitraryHasher:
+    def update(self, data):
+        pass
+
+    def digest(self):
+        return _ArbitraryDigest()
+
+
+class _ModelHashlib:
+    @staticmethod
+    def sha256(data=b""):
+        return _ArbitraryHasher()
+
+
+class _ModelStruct:
+    @staticmethod
+    def pack(fmt, *args):
+        return b""
+
+    @staticmethod
+    def unpack(fmt, data):
+        assert fmt == ">Q" and isinstance(data, _ArbitraryDigest)
+        v = fresh(Int, "digest_u64")
+        assume((0 <= v) & (v < (1 << 64)))
+        return (v,)
+
+
+def _model_hash(x):
+    return fresh(Int, "py_hash")
+
+
+def _patch_hash_env(mod):
+    saved = {}
+
+    def setup(s):
+        for k, v in (("hashlib", _ModelHashlib), ("struct", _ModelStruct), ("hash", _model_hash)):
+            saved[k] = mod.__dict__.get(k)
+            mod.__dict__[k] = v
+        return []
+
+    def teardown(s):
+        for k, v in saved.items():
+            mod.__dict__[k] = v
+    return {"setup": setup, "teardown": teardown}
+
+
+def _range_task(owner, mod, args, requires, upper):
+    c = Contract(owner, "_hash", label="range", args=args, requires=requires, modifies=[],
+                 ensures=[("hash-value-in-range", lambda s: (0 <= s.result) & (s.result < upper(s))),
+                          ("pure", lambda s: unchanged(s, s.self))], **_patch_hash_env(mod))
+    c.self_ty = Ref(owner)
+    TASKS.append(c)         # a task only: CONTRACTS keeps the stub (fixed function + range) used by the callers
+
+
+_range_task(BloomFilter, _bloom_mod, {"item": ITEM, "i": Int}, [lambda s: (0 <= s.i) & (s.self._seed >= 0)],
+            lambda s: s.self._size_bits)
+_range_task(CountMinSketch, _cms_mod, {"item": ITEM, "row": Int}, [lambda s: in_row(s.self, s.row)],
+            lambda s: s.self._width)
+_range_task(HyperLogLog, _hll_mod, {"item": ITEM}, [], lambda s: 1 << 64)
 
 # ============================================================================ lemmas: merge == sketch of the concatenation
 # Notation: sk(S) = state of a fresh sketch after add(x) for x in S.  The step contracts proved above give
@@ -1030,8 +1198,41 @@ import itertools as _it  # noqa: E402
 import random as _rnd  # noqa: E402
 
 
+def _plain_new(cls, *a, **k):
+    return object.__new__(cls)
+
+
+class _natively_constructible:
+    """CPython keeps a stricter tp_new on a class whose (patched, symbolic-allocation) __new__ was removed again:
+    `Cls(args)` then raises TypeError in a worker that ran symbolic tasks before.  For the duration of a native
+    bounded check the classes get a plain __new__, removed afterwards (so later symbolic tasks patch as usual)."""
+
+    def __init__(self, *classes):
+        self.classes, self.patched = classes, []
+
+    def __enter__(self):
+        for c in self.classes:
+            if "__new__" not in c.__dict__:
+                c.__new__ = staticmethod(_plain_new)
+                self.patched.append(c)
+
+    def __exit__(self, *exc):
+        for c in self.patched:
+            del c.__new__
+        return False
+
+
 def _bounded_tdigest(seed, tier):
-    from happysimulator.sketching.tdigest import TDigest
+    with _natively_constructible(TDigest, TCentroid):
+        return _bounded_tdigest_run(seed, tier)
+
+
+def _bounded_merkle(seed, tier):
+    with _natively_constructible(MerkleTree, MerkleNode):       # (KeyRange is a value class: never patched)
+        return _bounded_merkle_run(seed, tier)
+
+
+def _bounded_tdigest_run(seed, tier):
     ev, bad = 0, []
     n_seeds, n_streams = (40, 40) if tier != "thorough" else (400, 60)
     for sd in range(seed, seed + n_seeds):
@@ -1093,8 +1294,7 @@ def _merkle_pair_ok(m1, t1, m2, t2):
     return None
 
 
-def _bounded_merkle(seed, tier):
-    from happysimulator.sketching.merkle_tree import MerkleTree
+def _bounded_merkle_run(seed, tier):
     ev, bad = 0, []
     keys = ["a", "b", "c", "d", "e"][: (4 if tier != "thorough" else 5)]
     maps = [{k: v for k, v in zip(keys, combo) if v is not None} for combo in _it.product([None, 0, 1], repeat=len(keys))]
@@ -1127,7 +1327,45 @@ def _bounded_merkle(seed, tier):
     return {"evaluations": ev, "violations": bad[:20]}
 
 
+def _bounded_topk(seed, tier):
+    """cross-check of the part of lemma topk-heavy-hitters-are-tracked that is not machine-checked
+    (sum of tracked counts == N) together with the heavy-hitter claim itself, on seeded weighted streams"""
+    from collections import Counter
+    with _natively_constructible(TopK, _Counter):
+        ev, bad = 0, []
+        for sd in range(seed, seed + (300 if tier != "thorough" else 5000)):
+            rng = _rnd.Random(sd)
+            k = rng.choice([1, 2, 3, 5, 8])
+            universe = rng.choice([2, 6, 30])
+            t, true, N = TopK(k=k), Counter(), 0
+            for _ in range(rng.randrange(0, 80)):
+                x = min(int(rng.paretovariate(1.1)), universe) if rng.random() < 0.5 else rng.randrange(universe)
+                w = rng.choice([0, 1, 1, 1, 3, 10])
+                t.add(x, w)
+                true[x] += w
+                N += w
+                ev += 1
+                if sum(c.count for c in t._counters.values()) != N or t.item_count != N:
+                    bad.append({"case": "topk-tracked-counts-sum-to-N", "seed": sd, "k": k})
+                    break
+                miss = [y for y, n in true.items() if n * k > N and y not in t]
+                if miss:
+                    bad.append({"case": "topk-heavy-hitter-tracked", "seed": sd, "k": k, "item": miss[0], "true": true[miss[0]], "N": N})
+                    break
+                for y, n in true.items():
+                    e = t.estimate_with_error(y)
+                    if e.count - n > e.error or n - e.count > e.error or (y in t and e.count < n):
+                        bad.append({"case": "topk-estimate-within-reported-error", "seed": sd, "k": k, "item": y,
+                                    "true": n, "count": e.count, "error": e.error})
+                        break
+        return {"evaluations": ev, "violations": bad[:20]}
+
+
 PROPERTY["bounded"] = [
+    {"name": "topk-sum-and-heavy-hitters", "fn": _bounded_topk,
+     "bound": "seeded weighted streams (skewed and uniform, weights 0-10, <= 80 adds, k in {1,2,3,5,8}); after every add: "
+              "sum of tracked counts == N, every item with true count > N/k tracked, estimates within the reported error; "
+              "quick 300 seeds, thorough 5000"},
     {"name": "tdigest-quantiles", "fn": _bounded_tdigest,
      "bound": "seeded streams (uniform / duplicate-heavy / skewed / constant / extreme magnitudes, weights 1-5, "
               "n <= 300 adds, compression in {1,5,20,100}, 30% built as two merged halves); 83 quantile levels each; "
